@@ -19,7 +19,7 @@
         VIOL class=call-to-main          (known finding) when some call targets `main` ([calls_main_prog]:
                                          compile_main gives main no return continuation, the call
                                          site passes one),
-        VIOL class=capture-under-binder  (REPAIRED in /repo by <commitcap>, no longer a known finding: a recurrence
+        VIOL class=capture-under-binder  (REPAIRED in /repo by d5d4151, no longer a known finding: a recurrence
                                          is a plain VIOLATION; the tag only describes it) when the syntactic
                                          detector [shadowing_risk] fires on the source - checked after
                                          call-to-main and mistyped-goto-unbound,
@@ -81,7 +81,7 @@ Definition fun2core_tags (p : fcprog) (ncmp : nat) (has_exp : bool) : string :=
        ++ (if has_exp then " expected-ok" else "")
        ++ (if main_in_fragment p then " proved-fragment" else "")
        (* inside the hypotheses of C02_fun2core_correct_fragment2 (fragment, kinds, no call of main, well-scoped; no
-          capture guard since fix <commitcap>): for these programs agreement of the two runs is a THEOREM about the model *)
+          capture guard since fix d5d4151): for these programs agreement of the two runs is a THEOREM about the model *)
        ++ (if prog_guard p && nodup_str (map fdname (fcpdefs p)) then " proved-fragment2"
            else (* which part of the guard fails (histogram of what keeps inputs outside the theorem) *)
                 (if forallb (fun d => frag p (fdbody d)) (fcpdefs p) then "" else " out-frag")
